@@ -429,6 +429,11 @@ func c07LongHistory(g *ggen, i int) string {
 	for k := 0; k < nf; k++ {
 		sb.WriteString(fmt.Sprintf("let lgen%d_%d a b c =\n  (a, (b, c))\n\n", i, k))
 	}
+	// root-level VALUE definitions in a row (no function definition between them)
+	nv := 30 + g.r.Intn(20)
+	for k := 0; k < nv; k++ {
+		sb.WriteString(fmt.Sprintf("let lval%d_%d = slice.Length (slice.Map (fun x -> x + %d) [%d; 2; 3])\n\n", i, k, k, k))
+	}
 	nm := 30 + g.r.Intn(20)
 	for k := 0; k < nm; k++ {
 		p := fmt.Sprintf("L%d_%d", i, k%ng)
